@@ -34,11 +34,29 @@ type Area struct {
 	TY   int     `json:"ty,omitempty"`
 	TZ   int     `json:"tz,omitempty"`
 	Hash string  `json:"hash,omitempty"`
+	// Hav: a disc anywhere on the globe (antimeridian, poles): membership is
+	// decided by great-circle distance alone (in: d < 0.9 r, out: d > 1.1 r).
+	// Only used with DETECT lists without outside and cross, because a
+	// "straight path" has no sound meaning across the antimeridian.
+	Hav bool `json:"hav,omitempty"`
 }
 
 type frame struct {
 	cx, cy, hx, hy float64
 	shape          int
+	hav            bool
+	r              float64
+}
+
+// destination: great-circle destination point, longitude normalised to [-180,180].
+func destination(lat, lon, d, brg float64) (float64, float64) {
+	del := d / earthR
+	th := brg * math.Pi / 180
+	p1, l1 := lat*math.Pi/180, lon*math.Pi/180
+	p2 := math.Asin(math.Sin(p1)*math.Cos(del) + math.Cos(p1)*math.Sin(del)*math.Cos(th))
+	l2 := l1 + math.Atan2(math.Sin(th)*math.Sin(del)*math.Cos(p1), math.Cos(del)-math.Sin(p1)*math.Sin(p2))
+	lo := math.Mod(l2*180/math.Pi+540, 360) - 180
+	return p2 * 180 / math.Pi, lo
 }
 
 func ff(f float64) string { return strconv.FormatFloat(f, 'f', -1, 64) }
@@ -142,7 +160,7 @@ func (a Area) frame() frame {
 	switch a.Kind {
 	case "point", "circle":
 		hy := a.R / mPerDeg
-		return frame{cx: a.Lon, cy: a.Lat, hx: hy / math.Cos(a.Lat*math.Pi/180), hy: hy, shape: shCircle}
+		return frame{cx: a.Lon, cy: a.Lat, hx: hy / math.Cos(a.Lat*math.Pi/180), hy: hy, shape: shCircle, hav: a.Hav, r: a.R}
 	case "bounds":
 		return frame{cx: a.Lon, cy: a.Lat, hx: a.HW, hy: a.HH, shape: shSquare}
 	case "object":
@@ -217,6 +235,15 @@ const (
 
 // inside classifies a position against the area, with margin.
 func (f frame) inside(lat, lon float64) tri {
+	if f.hav {
+		switch q := haversine(lat, lon, f.cy, f.cx) / f.r; {
+		case q < 0.9:
+			return yes
+		case q > 1.1:
+			return no
+		}
+		return unsure
+	}
 	u, v := f.norm(lat, lon)
 	g := gauge(f.shape, u, v)
 	lo, hi, _, _ := f.margins()
@@ -231,6 +258,9 @@ func (f frame) inside(lat, lon float64) tri {
 
 // inBBox classifies a position against the area's bounding rectangle.
 func (f frame) inBBox(lat, lon float64) tri {
+	if f.hav {
+		return unsure
+	}
 	u, v := f.norm(lat, lon)
 	g := gauge(shSquare, u, v)
 	switch {
@@ -296,6 +326,9 @@ func segHits(shape int, u1, v1, u2, v2, scale float64) bool {
 // crosses classifies the straight lon/lat segment between two positions
 // against the area, with margin.
 func (f frame) crosses(lat1, lon1, lat2, lon2 float64) tri {
+	if f.hav {
+		return no // never decisive: such fences detect neither cross nor outside
+	}
 	u1, v1 := f.norm(lat1, lon1)
 	u2, v2 := f.norm(lat2, lon2)
 	_, _, lo, hi := f.margins()
